@@ -176,8 +176,12 @@ PLANS["C07"] = {
 }
 PLANS["C12"] = {
     "level": "fault_enumeration",
-    "runs": _with_asan("reject", 1, 1, 1, 1),
-    "cov_class": "C12",
+    "runs": lambda tier, seed: _with_asan("reject", 1, 1, 1, 1)(tier, seed) + [
+        # direct-API functions x every NULL / over-limit argument (second half of the statement), also under ASan+UBSan
+        {"engine": "abi", "args": [], "cases": 32 if tier == "quick" else 400, "shards": N, "timeout": 3000},
+        {"engine": "abi", "args": [], "cases": 8 if tier == "quick" else 64, "shards": N, "flavour": "asan", "env": ASAN_ENV,
+         "timeout": 3000}],
+    "cov_class": ["C12", "abi_null_code", "abi_limit_code"],
     "exhaustive": True,
     "rule": ("fault enumeration: for every suite (cipher, hash, AEAD tables; 3 lengths x 2 directions) and 19 "
              "maximal-length baselines, on every variant and through both the job API and the burst API: the "
@@ -187,7 +191,8 @@ PLANS["C12"] = {
              "AEAD pairing mismatches, NULL custom callbacks); buffers are write-protected during the submit; "
              "status, error code (documented acceptable set), descriptor and buffers are compared; every 16th "
              "entry is followed by the valid job again. distinct = distinct (variant, suite, entry, API, errno)."),
-    "floors": {"quick": {"catalogue_entries_run": 150000, "valid_jobs_confirmed": 8000}},
+    "floors": {"quick": {"catalogue_entries_run": 150000, "valid_jobs_confirmed": 8000, "direct_calls_null": 100000,
+                         "direct_calls_limit": 20000, "direct_functions": 122}},
     "assumptions": ["acceptable error codes per entry come from the names in the IMB_ERR enum; where two names "
                     "equally describe the constraint both are accepted"],
 }
@@ -220,8 +225,10 @@ PLANS["C08"] = {
 }
 PLANS["C09"] = {
     "level": "exploration",
-    "runs": _simple("entry", 12000, 600000),
-    "cov_class": "C09",
+    "runs": lambda tier, seed: _simple("entry", 12000, 600000)(tier, seed) + [
+        # direct-API sweep: every function pointer of IMB_MGR and the exported helpers (valid calls vs reference / N-version)
+        {"engine": "abi", "args": [], "cases": 48 if tier == "quick" else 600, "shards": N, "timeout": 3000}],
+    "cov_class": ["C09", "abi_len"],
     "rule": ("cases = work items of every suite, each run through: submit_job, submit_job_nocheck, async "
              "submit_burst / submit_burst_nocheck (1..17 jobs, item at a random position among decoys), "
              "synchronous cipher/hash/AEAD bursts (1..17 jobs, checked and no-check), and the direct functions "
@@ -230,7 +237,8 @@ PLANS["C09"] = {
              "1/bit/2/4/8/n/multikey and f9, KASUMI f8 1/bit/2/3/4/n and f9, single-block CFB); every result is "
              "compared with the reference. distinct = distinct (variant, entry point, cipher, hash, n / length "
              "class) tuples."),
-    "floors": {"quick": {"work_items": 8000, "entry_point_runs": 40000}},
+    "floors": {"quick": {"work_items": 8000, "entry_point_runs": 40000, "direct_calls_valid": 30000,
+                         "direct_outputs_verified_by_reference": 30000}},
     "assumptions": ["QUIC helpers, HEC and SHA one-block entry points are exercised by the keys/abi engines, not "
                     "compared here", "SNOW3G/KASUMI n-buffer calls use at most 16 packets (documented limit)"],
 }
